@@ -15,6 +15,7 @@
   harness with the race detector).
 -/
 import Aqv.Lemmas.TxPoolCount
+import Aqv.Lemmas.TxPricedLedger
 namespace Aqv.Props.C15
 open Aqv.TxPool
 
@@ -444,5 +445,76 @@ theorem replacement_needs_bump (s : Pool) (t : Tx) (loc : Bool) (sh : Shape) (vs
     ReplacementOK s (s.step true (.add t loc sh vs sl qo)) := addTx_replacement s t loc sh vs sl qo h hnf
 
 example : (Pool.init wCfg wView0).all.length < wCfg.globalSlots + wCfg.globalQueue := by decide
+
+/-! ## journal -/
+
+/-- tx_journal.go: a rotation writes `pool.local()`, and that is exactly the pooled transactions of the local senders
+    (no transaction of a non-local sender, none that is not pooled, none missing). -/
+theorem journal_rotate_exact (s : Pool) (h : Good s) : ∀ t, t ∈ s.localTxs ↔ s.pooled t ∧ t.sender ∈ s.locals := by
+  intro t
+  unfold Pool.localTxs
+  rw [List.mem_flatMap, pooled_iff]
+  constructor
+  · rintro ⟨a, ha, ht⟩
+    have hw := (h.1 a).toWeak
+    rcases List.mem_append.mp ht with h1 | h1
+    · have := hw.powner t h1; subst this; exact ⟨Or.inl h1, ha⟩
+    · have := hw.qowner t h1; subst this; exact ⟨Or.inr h1, ha⟩
+  · rintro ⟨hp, hl⟩
+    exact ⟨t.sender, hl, List.mem_append.mpr hp⟩
+
+/-! ## the price heap (`txPricedList`) refines the eviction oracle
+
+  Aqv.Model.TxPriced models the price heap with its stale counter one level more concretely: `Put`, `Removed`,
+  `Underpriced`, `Discard`, `Cap` statement by statement over a priority queue whose pops are those of Go's
+  container/heap on the same array (checked at run time, with a correct fallback), and the concrete machine `CPool` =
+  pool + heap, in which the victims of `add` and `SetGasPrice` come from the heap. -/
+
+/-- `priced_consistent` is an invariant of the concrete machine, and the concrete machine is the oracle machine with the
+    heap's victims as the oracle: one step. -/
+theorem priced_step_refines (c : CPool) (op : COp) (h : Cov c) :
+    (c.step op).2.pool = c.pool.step true (c.step op).1 ∧ Cov (c.step op).2 := cstep_refines c op h
+
+example : Cov (CPool.init wCfg wView0) := cinit_cov _ _
+
+/-- `priced_consistent` (every pooled transaction has an entry in the price heap) holds in every reachable state of the
+    concrete machine, its pool component is a run of the oracle machine — so every theorem above applies to it — and in
+    particular satisfies the state clauses of the property. -/
+theorem priced_consistent (cfg : Cfg) (v : View) (cops : List COp) :
+    Cov ((CPool.init cfg v).runOps cops).2 ∧
+    ((CPool.init cfg v).runOps cops).2.pool = ((CPool.init cfg v).runOps cops).1.foldl (Pool.step true) (Pool.init cfg v) ∧
+    Inv ((CPool.init cfg v).runOps cops).2.pool := by
+  obtain ⟨h1, h2⟩ := crun_refines cops (CPool.init cfg v) (cinit_cov cfg v)
+  refine ⟨h2, h1, ?_⟩
+  rw [h1]
+  exact inv_reachable cfg v _
+
+/-- Underpriced: with a consistent heap the heap-based answer (skip stale heads, compare with the root) is the comparison
+    with the cheapest pooled price; locals are never underpriced. -/
+theorem priced_underpriced_refines (s : Pool) (P : Priced) (t : Tx) (hcov : ∀ x ∈ s.all, x ∈ P.items) :
+    (P.underpriced s.all s.locals t).1 = s.underpriced t := (underpriced_refines s P t hcov).1
+
+/-- Discard: every eviction the heap performs is one the oracle permits (pooled, not local, at most `count`; the model's
+    `add` with these victims performs exactly these removals), it evicts cheapest first, and it leaves the heap covering
+    everything pooled but the victims. -/
+theorem priced_discard_refines_oracle (s : Pool) (P : Priced) (count : Nat) (hcov : ∀ x ∈ s.all, x ∈ P.items) :
+    (∀ v ∈ (P.discard s.all s.locals count).1, v ∈ s.all ∧ v.sender ∉ s.locals) ∧
+    (P.discard s.all s.locals count).1.length ≤ count ∧
+    s.sanitizeVictims count (P.discard s.all s.locals count).1 = (P.discard s.all s.locals count).1 ∧
+    (∀ v ∈ (P.discard s.all s.locals count).1, ∀ u ∈ s.all, u.sender ∉ s.locals →
+        u ∉ (P.discard s.all s.locals count).1 → v.price ≤ u.price) := by
+  have := discard_refines s P count hcov
+  simp only at this
+  exact ⟨this.1, this.2.1, this.2.2.1, this.2.2.2.1⟩
+
+/-- Cap (SetGasPrice): the heap drops exactly the pooled non-local transactions below the new floor. -/
+theorem priced_cap_refines (s : Pool) (P : Priced) (th : Nat) (hcov : ∀ x ∈ s.all, x ∈ P.items) :
+    ∀ v, v ∈ (P.cap s.all s.locals th).1 ↔ v ∈ s.all ∧ v.price < th ∧ v.sender ∉ s.locals := by
+  have := cap_refines s P th hcov
+  simp only at this
+  exact this.1
+
+example : ∀ x ∈ (Pool.init wCfg wView0).all, x ∈ ({ items := [], stales := 0 } : Priced).items := by
+  intro x hx; cases hx
 
 end Aqv.Props.C15
